@@ -512,10 +512,115 @@ func (pf *ParserFacts) driverGuard(s SlotStore, accepted ...atomKind) (bool, str
 						}
 					}
 				}
+				// the child handed to a helper of the driver that tests it: with a test written in
+				// the helper, or with a predicate the caller passes along (ValueType.IsString)
+				for _, ref := range *c.Referrers() {
+					hc, ok := ref.(*ssa.Call)
+					if !ok {
+						continue
+					}
+					h := hc.Call.StaticCallee()
+					if h == nil || h.Blocks == nil || pkgOf(h) != pkgOf(fn) {
+						continue
+					}
+					for ai, arg := range hc.Call.Args {
+						if arg != ssa.Value(c) || ai >= len(h.Params) {
+							continue
+						}
+						pd := pf.derive(h.Params[ai], false)
+						for _, a := range pf.atomsOn(h, pd) {
+							for _, k := range accepted {
+								if k == atomDataType && stringMode && !hasSlice {
+									continue
+								}
+								if a.kind == k && leadsToErrorReturn(a.ifi.Block().Succs[1-a.holdsOn], 0) {
+									return true, "not tested by the parser; the driver's helper " + h.Name() + " tests " + s.Node + "." + callee.Name() + "() (" + string(k) + ") with an error exit before translating – rejected for both targets"
+								}
+							}
+						}
+						for _, hb := range h.Blocks {
+							cnd, neg := condOf(hb)
+							dc, ok := cnd.(*ssa.Call)
+							if !ok {
+								continue
+							}
+							pp, ok := dc.Call.Value.(*ssa.Parameter)
+							if !ok {
+								continue
+							}
+							uses := false
+							for _, da := range dc.Call.Args {
+								if pd.types[da] || pd.vals[da] {
+									uses = true
+								}
+							}
+							if !uses {
+								continue
+							}
+							// the predicate passed for that parameter at this call
+							var pred *ssa.Function
+							for pi, hp := range h.Params {
+								if hp == pp && pi < len(hc.Call.Args) {
+									switch f := hc.Call.Args[pi].(type) {
+									case *ssa.Function:
+										pred = f
+									case *ssa.MakeClosure:
+										pred, _ = f.Fn.(*ssa.Function)
+									}
+								}
+							}
+							if pred == nil {
+								continue
+							}
+							kind := atomKind("")
+							names := []*ssa.Function{pred}
+							if di := dcDummy(pred); di != nil {
+								names = append(names, staticTargets(pf.W, di)...)
+							}
+							for _, t := range names {
+								switch t.Name() {
+								case "IsString":
+									kind = atomString
+								case "IsBool":
+									kind = atomBool
+								case "IsInt":
+									kind = atomInt
+								case "IsSlice":
+									kind = atomSlice
+								}
+							}
+							fail := hb.Succs[1]
+							if neg {
+								fail = hb.Succs[0]
+							}
+							for _, k := range accepted {
+								if kind == k && leadsToErrorReturn(fail, 0) {
+									return true, "not tested by the parser; the driver's helper " + h.Name() + " applies the predicate " + pred.Name() + " it is handed to " + s.Node + "." + callee.Name() + "() with an error exit before translating – rejected for both targets"
+								}
+							}
+						}
+					}
+				}
 			}
 		}
 	}
 	return false, ""
+}
+
+// dcDummy: an instruction naming f as a function value, so that staticTargets looks through a
+// method-expression thunk to the method it calls.
+func dcDummy(f *ssa.Function) ssa.Instruction {
+	for _, b := range f.Blocks {
+		for _, ins := range b.Instrs {
+			if c, ok := ins.(*ssa.Call); ok {
+				return c
+			}
+		}
+	}
+	if len(f.Blocks) > 0 && len(f.Blocks[0].Instrs) > 0 {
+		return f.Blocks[0].Instrs[0]
+	}
+	return nil
 }
 
 // listRootOf: v is a load of an element of list L (possibly a field of a struct result).
